@@ -3434,10 +3434,19 @@ impl G {
     }
     // loop-invariant parameters
     let ninv = self.rng.below(3);
+    // the two loop-invariant parameters may trade places in the recursive call (a parallel move)
+    let swap_inv = ninv == 2 && self.rng.chance(1, 2);
+    let swap_r = if free && self.rng.chance(1, 2) { FULL } else { (-50, 50) };
     let mut inv_names = vec![];
     for k in 0..ninv {
       let n = format!("k{k}");
-      let r = if free && self.rng.chance(1, 2) { FULL } else { (-50, 50) };
+      let r = if swap_inv {
+        swap_r
+      } else if free && self.rng.chance(1, 2) {
+        FULL
+      } else {
+        (-50, 50)
+      };
       params.push((n.clone(), Ty::Int, r));
       cx.push(&n, &Ty::Int, r);
       inv_names.push(n);
@@ -3577,7 +3586,12 @@ impl G {
     if has_acc {
       rec_args.push(new_acc);
     }
-    rec_args.extend(inv_names.iter().cloned());
+    if swap_inv {
+      rec_args.extend(inv_names.iter().rev().cloned());
+      self.feat("loop-params-swapped");
+    } else {
+      rec_args.extend(inv_names.iter().cloned());
+    }
     body.push(format!("{cname}.{name}({})", rec_args.join(", ")));
     // exit value
     let (ret_ty, exit_txt, rr): (Ty, String, R) = match acc_kind {
@@ -3607,7 +3621,19 @@ impl G {
     };
     let exit_first = self.rng.chance(1, 2);
     let written = if exit_first { negate_op(cont) } else { cont };
-    let gtxt = if self.rng.chance(1, 4) { format!("{btxt} {} i", mirror_op(written)) } else { format!("i {written} {btxt}") };
+    // the guard may read the induction variable through a small tail-recursive identity helper:
+    // once inlined, the exit of this loop follows an inner loop
+    let gi = if self.rng.chance(if loops_prof { 5 } else { 2 }, 20) {
+      let ci = self.cidx[cname];
+      if !self.classes[ci].members.iter().any(|m| m.starts_with("function idl(")) {
+        self.classes[ci].members.push("function idl(x: int, k: int): int = if k <= 0 { x } else { ".to_string() + cname + ".idl(x, k - 1) }");
+      }
+      self.feat("loop-guard-inner-loop");
+      format!("{cname}.idl(i, {})", 1 + self.rng.below(3))
+    } else {
+      "i".to_string()
+    };
+    let gtxt = if self.rng.chance(1, 4) { format!("{btxt} {} {gi}", mirror_op(written)) } else { format!("{gi} {written} {btxt}") };
     let rec_block = format!("{{\n{}\n}}", body.join("\n"));
     let exit_block = format!("{{ {exit_txt} }}");
     let ife = if exit_first { format!("if {gtxt} {exit_block} else {rec_block}") } else { format!("if {gtxt} {rec_block} else {exit_block}") };
